@@ -2477,6 +2477,51 @@ def once_flag_first(check: Check, repo: Repo, rule: str = "ONCE-FLAG-FIRST") -> 
     check.floor(rule, 3, "calls of the abort callback (_run, abort, _cleanup)")
 
 
+def no_wait_after_flag(check: Check, repo: Repo, rule: str = "FLAG-THEN-CANCEL") -> None:
+    check.rule(
+        rule,
+        "the converse of ONCE-FLAG-FIRST. Once `_aborted` is up, abort() takes its shortcut and cancels nothing any more, "
+        "so whoever raises the flag has taken over the still pending item futures: in every method of StreamItemQueue an "
+        "`await gather(*<futures of self._pending_futures>)` that is reachable from a `self._aborted = True` store of the "
+        "same method waits only for futures that the method has cancelled (a `for f in <them>: f.cancel()` loop dominates "
+        "the await). A plain wait for un-cancelled item futures belongs *before* the store (the failure branch of _run lets "
+        "the items yielded ahead of the failure settle, and only then raises the flag): with the store first, a stop that "
+        "arrives during the wait finds the flag up, cancels neither the producer nor the items, and they stay pending "
+        "for as long as their resolvers do",
+    )
+    n = 0
+    cls = repo.cls("execution.incremental.stream_item_queue", "StreamItemQueue")
+    for fn in [s_ for s_ in cls.body if isinstance(s_, (ast.FunctionDef, ast.AsyncFunctionDef))]:
+        # locals holding (a selection of) the pending futures
+        pend = {"self._pending_futures"}
+        for s_ in walk_body(fn):
+            if isinstance(s_, ast.Assign) and any("self._pending_futures" in unparse(x) for x in ast.walk(s_.value) if isinstance(x, ast.Attribute)):
+                pend |= {t.id for t in s_.targets if isinstance(t, ast.Name)}
+        waits = [a for a in walk_body(fn) if isinstance(a, ast.Await) and isinstance(a.value, ast.Call) and call_name(a.value).split(".")[-1] == "gather"
+                 and any(isinstance(x, ast.Starred) and unparse(x.value) in pend for x in a.value.args)]
+        if not waits:
+            continue
+        cfg = CFG(fn)
+        flags = [nd for s_ in walk_body(fn) if isinstance(s_, ast.Assign) and any(unparse(t) == "self._aborted" for t in s_.targets)
+                 and isinstance(s_.value, ast.Constant) and s_.value.value is True for nd in cfg.nodes_of(s_)]
+        dom = cfg.dominators()
+        for a in waits:
+            n += 1
+            what = next(unparse(x.value) for x in a.value.args if isinstance(x, ast.Starred) and unparse(x.value) in pend)
+            goals = set(cfg.node_for_expr(a))
+            cancels = [nd for lp in walk_body(fn) if isinstance(lp, ast.For) and unparse(lp.iter) == what and isinstance(lp.target, ast.Name)
+                       and any(isinstance(c, ast.Call) and unparse(c.func) == f"{lp.target.id}.cancel" for c in ast.walk(lp))
+                       for nd in cfg.nodes_of(lp)]
+            cancelled = any(c in dom.get(g, set()) for c in cancels for g in goals)
+            after_flag = any(cfg.find_path(f, lambda nd: nd in goals) is not None for f in flags)
+            ok = cancelled or not after_flag
+            check.ob(rule, a, f"StreamItemQueue.{fn.name}: `{unparse(a)[:60]}`", ok,
+                     ("the futures were cancelled before the wait" if cancelled else "the wait comes before the flag is raised (or the method never raises it)") if ok else
+                     f"waits for the un-cancelled futures `{what}` after `self._aborted = True`: a stop arriving during this wait takes abort()'s "
+                     "shortcut and cancels nothing - producer and item tasks stay pending")
+    check.floor(rule, 2, "waits for pending item futures (_run, _settle_pending)")
+
+
 def work_always_collected(check: Check, repo: Repo, rule: str = "NULLED-ABORTED") -> None:
     """Clause of NULLED-ABORTED: build_response cannot return without having passed get_incremental_work."""
     fn = repo.func("execution.incremental.incremental_executor", "IncrementalExecutor.build_response")
